@@ -377,7 +377,9 @@ Definition wake_client (now : Z) (s : server) (b : blocking) (u : wakeup) : serv
       | Some st =>
           match recheck (bl_left st) d' (bl_keys st) with
           | (Some (k, v), d'') =>
-              (set_db s (u_db u) d'', unblock (emit b (u_conn u) (FArray [FBulk k; FBulk v])) (u_conn u))
+              (* served from another of its keys: logged as the pop of THAT key (293eff6) *)
+              (log_pop (set_db s (u_db u) d'') (u_db u) (bl_left st) k,
+               unblock (emit b (u_conn u) (FArray [FBulk k; FBulk v])) (u_conn u))
           | (None, d'') =>
               (set_db s (u_db u) d'',
                with_reg b (reregister (b_reg b) (u_db u) (u_conn u) (bl_keys st) (bl_left st) (bl_dl st) (u_at u)))
